@@ -1033,6 +1033,17 @@ func callKeyOf(cc *ssa.CallCommon) string {
 	if n, ok := cc.Value.Type().(*types.Named); ok {
 		return "dyn:" + n.Obj().Name()
 	}
+	// a function value held in a parameter or a captured variable is named after it
+	switch v := cc.Value.(type) {
+	case *ssa.Parameter:
+		return "dyn:" + v.Name()
+	case *ssa.FreeVar:
+		return "dyn:" + v.Name()
+	case *ssa.UnOp:
+		if fv, ok := v.X.(*ssa.FreeVar); ok {
+			return "dyn:" + fv.Name()
+		}
+	}
 	return "dynamic call"
 }
 
